@@ -171,6 +171,53 @@ Fixpoint py_join_bytes (l : list pval) : option bytes :=
   | _ => None
   end.
 
+(* ---- types/pair.py ---- *)
+(* PairType.iter_comb(): the leaves along the right spine *)
+Fixpoint py_spine (v : pval) : list pval :=
+  match v with
+  | PPair a b => a :: py_spine b
+  | _ => [v]
+  end.
+
+(* PairType.from_comb(leaves) *)
+Fixpoint py_from_comb (l : list pval) : option pval :=
+  match l with
+  | [] => None
+  | [v] => Some v
+  | v :: r => option_map (PPair v) (py_from_comb r)
+  end.
+
+(* list(pair.unpairn_comb(count)) *)
+Fixpoint py_unpairn (count : nat) (v : pval) : list pval :=
+  match v with
+  | PPair a b =>
+      a :: match count with
+           | 0 => [b]
+           | S c => match b with PPair _ _ => py_unpairn c b | _ => [b] end
+           end
+  | _ => [v]
+  end.
+
+(* pair.access_comb(idx): the idx-th element of iter_comb(include_nodes=True) *)
+Fixpoint py_access_comb (k : nat) (v : pval) : option pval :=
+  match k with
+  | 0 => Some v
+  | 1 => match v with PPair a _ => Some a | _ => None end
+  | S (S k') => match v with PPair _ b => py_access_comb k' b | _ => None end
+  end.
+
+Fixpoint replace_nth {A} (i : nat) (x : A) (l : list A) : list A :=
+  match l with
+  | [] => []
+  | y :: r => match i with 0 => x :: r | S j => y :: replace_nth j x r end
+  end.
+
+(* pair.update_comb(idx, element) *)
+Definition py_update_comb (k : nat) (x v : pval) : option pval :=
+  if k =? 0 then Some x
+  else if Nat.odd k then py_from_comb (replace_nth (Nat.div2 k) x (py_spine v))
+  else py_from_comb (firstn (Nat.div2 k) (py_spine v) ++ py_spine x).
+
 Definition py_simple (i : instr) : option (nat * (list pval -> pres)) :=
   match i with
   | I_SWAP => Some (2, fun a => match a with [x; y] => POk [y; x] | _ => PErr end)
@@ -179,6 +226,19 @@ Definition py_simple (i : instr) : option (nat * (list pval -> pres)) :=
   | I_UNPAIR => Some (1, fun a => match a with [PPair x y] => POk [x; y] | _ => PErr end)
   | I_CAR => Some (1, fun a => match a with [PPair x _] => POk [x] | _ => PErr end)
   | I_CDR => Some (1, fun a => match a with [PPair _ y] => POk [y] | _ => PErr end)
+  | I_PAIRN n => Some (n, fun a => if 2 <=? n then match py_from_comb a with Some v => POk [v] | None => PErr end else PErr)
+  | I_UNPAIRN n => Some (1, fun a => match a with
+                                     | [PPair x y] => if 2 <=? n then POk (py_unpairn (n - 2) (PPair x y)) else PErr
+                                     | _ => PErr
+                                     end)
+  | I_GETN k => Some (1, fun a => match a with
+                                  | [PPair x y] => match py_access_comb k (PPair x y) with Some v => POk [v] | None => PErr end
+                                  | _ => PErr
+                                  end)
+  | I_UPDATEN k => Some (2, fun a => match a with
+                                     | [e; PPair x y] => match py_update_comb k e (PPair x y) with Some v => POk [v] | None => PErr end
+                                     | _ => PErr
+                                     end)
   | I_LEFT t => Some (1, fun a => match a with [x] => POk [PLeft x t] | _ => PErr end)
   | I_RIGHT t => Some (1, fun a => match a with [x] => POk [PRight t x] | _ => PErr end)
   | I_SOME => Some (1, fun a => match a with [x] => POk [PSome x] | _ => PErr end)
